@@ -35,7 +35,12 @@ def run(tier, replay=None):
               "indices 0, in-loop, N-1, N, 3 wraps, two seeded indices over up to 1000 wraps and a year-2025 index (start 0) "
               "or 1000 wraps; $Time$ URLs are taken from the text timeline of the served MPD; distinct = distinct "
               "(asset, URL configuration, language, segment index)")
+    c.rule += ("; language sets: plain two-letter tags, BCP-47 tags with subtags (pt-BR, zh-Hans, en-GB-oxendict), sets sharing a primary "
+               "subtag in both orders (pt,pt-BR / pt-BR,pt / zh-Hans,zh,zho) and three-letter tags; per scenario every Representation "
+               "announced by the MPD is fetched (init + one media segment) by its announced id")
     c.assumptions = [
+        "the language of a track is read from elng when present, else from the mdhd language field; it, the TTML xml:lang and the "
+        "language word of every cue text must equal the Representation's language exactly (case-sensitive, whole tag)",
         "'lasting the configured cue duration' is accepted both as counted from the UTC second and as counted from the clipped "
         "begin; under the first reading a cue that is over before the segment starts may be omitted; a cue with end <= begin is "
         "never accepted",
@@ -64,7 +69,7 @@ def run(tier, replay=None):
     st = vlib.run_driver(drive, args, timeout=3000)
     # non-vacuity of the driver
     for k in ("subs_stpp", "subs_wvtt", "subs_number", "subs_time", "subs_tlnr", "vtte_samples", "subs_start_inside_second",
-              "subs_far", "regpairs", "mpds", "mpd_timeline_entries", "inits", "cues"):
+              "subs_far", "regpairs", "mpds", "mpd_timeline_entries", "inits", "cues", "sweep_subs", "sweep_subs_subtag_lang", "lsets_multi"):
         if st.get(k, 0) <= 0:
             raise MachineryError(f"driver c12: vacuous run, {k} = {st.get(k)}")
     if st["subs_200"] * 10 < st["subs"] * 9:
